@@ -1,10 +1,87 @@
 (* C02 - Whatever the builder finishes is a valid FlatBuffer that the verifier accepts.
-   Only statements, each closed by [exact] of a lemma proved in Builder/*.v. *)
-From Flatcc.Format Require Import Schema Spec.
-From Flatcc.Builder Require Import EmitModel BuilderBasics.
+   Only statements, each closed by [exact] of a lemma proved in Format/SpecProofs.v and Builder/*.v.
+
+   Models: Builder/EmitModel.v (src/runtime/builder.c: the create layer, the table frame of the stack layer, the
+   buffer frames; tied to /repo on every run by byte-exact emit-stream correspondence, checks/c02.py) and
+   Format/Spec.v (the binary format as a checking decoder, independent of flatcc's verifier).
+
+   Proved here (for ALL schemas, scripts, settings; no size bound other than the 2^31 byte limit of the builder):
+   the whole-build theorem for scripts whose tables carry scalar / struct / string / vector / table / vector-of-strings /
+   vector-of-tables / union (table, struct and string members, NONE) fields (union-vector and nested-buffer fields of
+   the schema left absent), created in any order the API allows, with any sharing of references, objects created before
+   or after start_buffer, vtable clustering on or off, any block alignment, plain or size-prefixed, with or without
+   identifier, table or struct root.
+   NOT proved (kept as statements in comments below; decided by the correspondence and the independent oracles of
+   checks/c02.py, c03.py, c15.py on every run): union vectors, nested buffers, the stack-layer call styles
+   (start/push/extend/append/truncate: their emit streams are compared with the create-level model), and the
+   link "Spec.wf implies flatcc's verifier accepts" (the lead's verify_complete over Verifier/VerifierModel.v). *)
+From Flatcc.Format Require Import Schema Spec SpecProofs.
+From Flatcc.Builder Require Import EmitModel VMem Objects Leaves OffVec TableLayout Table Buffer Script ScriptProofs Example.
 Local Open Scope Z_scope.
 
-Theorem C02_le32_value : forall x, in_u32 x ->
-  x mod 256 + 256 * ((x / 256) mod 256) + 65536 * ((x / 65536) mod 256) + 16777216 * ((x / 16777216) mod 256) = x.
-Proof. exact le32_value. Qed.
-Print Assumptions C02_le32_value.
+(* The finished bytes of every well-typed build are well formed by the independent format rules: offsets forward and
+   in range, vtables well formed, every element aligned for its type relative to the buffer start - also when the start is
+   only as aligned as the builder reports -, strings terminated, required fields present; the reported alignment is a
+   power of two >= 4 (and at least the block alignment, C02_create_buffer).  The end padding of align_buffer_end adds
+   emit_end mod align zero bytes: the size is NOT in general a multiple of the block alignment (pinned by /repo's emit_test). *)
+Theorem C02_build_wf : forall Sc sc R v ws n regs ems st,
+  wt_script Sc sc R v ws n -> run init_state [] sc = Some (regs, ems, st) -> small st ->
+  wf n Sc R ws (buffer_bytes st) = true /\
+  wf_aligned n Sc R ws (buffer_alignment st) (buffer_bytes st) = true /\
+  pow2 (buffer_alignment st) /\ 4 <= buffer_alignment st.
+Proof. exact build_wf. Qed.
+Print Assumptions C02_build_wf.
+
+(* Nothing already emitted ever changes: a decoded object stays decoded when bytes are added before or after it, when
+   the buffer is moved, and when the depth bound grows (the invariant behind the build theorem; also what makes a
+   finished buffer position independent). *)
+Theorem C02_decode_stable : forall Sc n n', (n <= n')%nat ->
+  forall m o m' o' ds t p v, mle m o m' o' -> dec_table n Sc m o ds t p = Some v -> dec_table n' Sc m' o' ds t p = Some v.
+Proof. exact dec_table_mono. Qed.
+Print Assumptions C02_decode_stable.
+
+(* One start_table .. end_table: with valid children the emitted table is valid at the returned reference, in every
+   buffer that will contain it; the vtable cache stays sound (a reused vtable is byte-identical, lies in the buffer and is
+   2-aligned). *)
+Theorem C02_table_valid : forall n Sc st adds t flds fs ref es st',
+  st_ok st -> ma_ok st -> cache_ok st ->
+  Forall farg_wf adds -> Z.of_nat (length adds) <= 32765 -> table_fits adds ->
+  table_fields Sc t = Some flds -> fields_built n Sc st adds flds fs ->
+  build_table st adds = Some (ref, es, st') -> small st' ->
+  step st st' /\ cache_ok st' /\ e_start st' = ref /\ ref < e_start st /\ ref mod 4 = 0 /\
+  valid (S n) Sc st' (lvl_align st') (OTable t) ref (VTable fs).
+Proof. exact build_table_valid. Qed.
+Print Assumptions C02_table_valid.
+
+(* create_buffer (the header: size prefix, root offset, identifier, padding that aligns the start; end padding) *)
+Theorem C02_create_buffer : forall n Sc st id b_align root align flags R v ref es st',
+  st_ok st -> ma_ok st -> cache_ok st -> pow2 align -> min_align st <= align ->
+  balign_ok b_align -> balign_ok (block_align st) -> in_u32 id ->
+  Z.land flags 1 = 0 ->
+  e_start st <= root < 0 -> valid n Sc st (lvl_align st) (root_oty R) root v ->
+  create_buffer st id b_align root align flags = Some (ref, es, st') -> small st' ->
+  st_ok st' /\ e_start st' = ref /\ pow2 (min_align st') /\ 4 <= min_align st' /\ align <= min_align st' /\
+  ref mod min_align st' = 0 /\
+  (forall ds0, Forall (fun d => d mod min_align st' = 0) ds0 ->
+     decode_mem n Sc R (negb (Z.land flags 2 =? 0)) ds0 (mem_of_list (buffer_bytes st')) (lenZ (buffer_bytes st')) = Some v) /\
+  (b_align <> 0 -> b_align <= min_align st').
+Proof. exact create_buffer_top. Qed.
+Print Assumptions C02_create_buffer.
+
+(* The hypotheses are satisfiable: a concrete schema and script (shared string, object created before start_buffer,
+   inline vtables, block_align 16, size prefix, identifier) that is well typed and runs. *)
+Theorem C02_example_well_typed : wt_script ex_schema ex_script (RTable 1) ex_value true 2.
+Proof. exact ex_wt. Qed.
+Print Assumptions C02_example_well_typed.
+
+Theorem C02_example_runs : exists regs ems st,
+  run init_state [] ex_script = Some (regs, ems, st) /\ small st /\ buffer_alignment st = 16 /\ lenZ (buffer_bytes st) = 112.
+Proof. exact ex_runs. Qed.
+Print Assumptions C02_example_runs.
+
+(* Full statements not yet proved (decided by checks/c02.py on every run):
+   build_wf_full      : as C02_build_wf with wt_script extended by union-vector / nested-buffer fields and by the
+                        stack-layer call styles;
+   build_verifies     : wt_script ... -> verify_root S R variant fid addr (buffer_bytes st) = Ok  (addr aligned to the
+                        reported alignment) - needs the lead's VerifierModel and verify_complete;
+   verify_complete    : wf n S R ws b = true -> n <= MAX_LEVELS -> 8 <= len b <= 2^32 - 9 -> verify_root ... b = Ok. *)
